@@ -448,8 +448,8 @@ impl Identity {
                 }
                 assert_eq!(revision.parent, Some(current.id));
 
-                self.heads.insert(author.into(), id);
                 revision.accept(author, signature, &current)?;
+                self.heads.insert(author.into(), id);
 
                 self.adopt(id);
             }
@@ -793,20 +793,20 @@ impl Revision {
         {
             return Err(ApplyError::InvalidSignature(author, self.blob));
         }
-        if self
-            .verdicts
-            .insert(author, Verdict::Accept(signature))
-            .is_some()
-        {
+        if self.verdicts.contains_key(&author) {
             return Err(ApplyError::DuplicateVerdict);
         }
+        self.verdicts.insert(author, Verdict::Accept(signature));
+
         Ok(())
     }
 
     fn reject(&mut self, key: PublicKey) -> Result<(), ApplyError> {
-        if self.verdicts.insert(key, Verdict::Reject).is_some() {
+        if self.verdicts.contains_key(&key) {
             return Err(ApplyError::DuplicateVerdict);
         }
+        self.verdicts.insert(key, Verdict::Reject);
+
         // Mark as rejected if it's impossible for this revision to be accepted
         // with the current delegate set. Note that if the delegate set changes,
         // this proposal will be marked as `stale` anyway.
